@@ -560,13 +560,44 @@ class Ctx:
         return 1 if violations else 0
 
 
+def _probe_diff(ctx, when, before, after):
+    """records a failing input: a probe item whose result changed"""
+    for k in sorted(before):
+        if before[k] != after.get(k):
+            ctx.fail("library-state-carried-over", {"probe": k, "when": when, "first": before[k][:1500], "later": after.get(k, "")[:1500]},
+                     "the fixed probe %s (tools/props/stateprobe.py) gives another result %s than at its first evaluation: "
+                     "something handed out earlier and modified by its owner, or done by the stage, shows up in an unrelated later call"
+                     % (k, when))
+    return None
+
+
 def run_check(pid, tier, seed, replay=None):
     import importlib
     mod = importlib.import_module("props." + pid)
     ctx = Ctx(pid, tier, seed)
     if replay is not None:
         data = json.load(open(replay))
-        return mod.replay(ctx, data)
+        rc = 0
+        carried = [f for f in data.get("fails", []) if f.get("kind") == "library-state-carried-over"]
+        if carried:
+            # the state probes are replayed generically: evaluated three times on /repo as it is now
+            from props import stateprobe
+            a = stateprobe.run(pid)
+            stateprobe.run(pid)
+            c = stateprobe.run(pid)
+            for f in carried:
+                k = f["data"]["probe"]
+                print("library-state-carried-over: probe %s, recorded %s" % (k, f["data"]["when"]))
+                print("  first evaluation now :", a.get(k, "")[:300])
+                print("  third evaluation now :", c.get(k, "")[:300])
+                same = a.get(k) == c.get(k)
+                print("  ->", "same result: the probe alone does not carry state over (the recorded difference needed the stage to run)"
+                      if same else "DIFFERENT: state is carried over between unrelated calls")
+                rc |= 0 if same else 1
+            data = dict(data, fails=[f for f in data["fails"] if f.get("kind") != "library-state-carried-over"])
+            if not data["fails"] and not data.get("broken"):
+                return rc
+        return rc | (mod.replay(ctx, data) or 0)
     # 1. translator
     tr = regen()
     ctx.translator = {n: ("ok" if e is None else e) for n, e in tr}
@@ -632,6 +663,17 @@ def run_check(pid, tier, seed, replay=None):
         rc = ctx.finish()
         sys.stdout.flush()
         os._exit(rc or 1)
+    # state probes (tools/props/stateprobe.py): fixed library calls before the stages and after each of them; their
+    # results must not change - nothing a caller did with objects the library handed out may show up in later calls
+    probe0 = None
+    try:
+        from props import stateprobe
+        probe0 = stateprobe.run(pid)
+        stateprobe.run(pid)              # the probes modify what they were handed: the baseline is the SECOND evaluation
+        probe0 = probe0 if probe0 == stateprobe.run(pid) else _probe_diff(ctx, "before the stages", probe0, stateprobe.run(pid))
+    except Exception:   # noqa
+        ctx.notes.append("state probe could not run: " + traceback.format_exc()[-300:])
+        probe0 = None
     for stage in ("correspondence", "search"):
         fn = getattr(mod, stage, None)
         if fn is None:
@@ -648,5 +690,14 @@ def run_check(pid, tier, seed, replay=None):
             ctx.broken("%s crashed" % stage, traceback.format_exc())
         finally:
             timer.cancel()
+        if probe0 is not None:
+            try:
+                now = stateprobe.run(pid)
+                ctx.evaluations += len(now)
+                if now != probe0:
+                    _probe_diff(ctx, "after the %s stage" % stage, probe0, now)
+                    probe0 = None
+            except Exception:   # noqa
+                ctx.notes.append("state probe could not run: " + traceback.format_exc()[-300:])
     shutil.rmtree(os.path.join(SCRATCH, "%s.%d" % (pid, os.getpid())), ignore_errors=True)
     return ctx.finish()
